@@ -124,6 +124,23 @@ def explore(ctx):
             # its anchors and advance are transformed and propagated like anyone's
             desc["glyphs"].append({"name": "blankbase", "unicodes": [], "width": Fr(360), "contours": [], "components": [],
                                    "anchors": [("top", Fr(180), Fr(300)), ("bottom", Fr(180), Fr(-20))]})
+        if i % 5 == 4:
+            # always, for anchor propagation: a base with top / center / bottom, a mark that attaches at top (_top + top) and
+            # ALSO carries a plain `center` anchor it does not attach by; composites of the two (plain, transformed, with an
+            # anchor of their own): `top` follows the mark, `center` and `bottom` come from the BASE
+            sqc = [[(Fr(0), Fr(0), "line"), (Fr(100), Fr(0), "line"), (Fr(100), Fr(100), "line"), (Fr(0), Fr(100), "line")]]
+            one = (Fr(1), Fr(0), Fr(0), Fr(1))
+            desc["glyphs"] += [
+                {"name": "pa.base", "unicodes": [], "width": Fr(500), "contours": sqc, "components": [],
+                 "anchors": [("top", Fr(250), Fr(600)), ("center", Fr(250), Fr(250)), ("bottom", Fr(250), Fr(0))]},
+                {"name": "pa.ring", "unicodes": [], "width": Fr(0), "contours": sqc, "components": [],
+                 "anchors": [("_top", Fr(0), Fr(500)), ("top", Fr(0), Fr(700)), ("center", Fr(0), Fr(580))]},
+                {"name": "pa.oring", "unicodes": [], "width": Fr(500), "contours": [], "anchors": [],
+                 "components": [("pa.base", one + (Fr(0), Fr(0))), ("pa.ring", one + (Fr(250), Fr(100)))]},
+                {"name": "pa.oring.sc", "unicodes": [], "width": Fr(400), "contours": [], "anchors": [],
+                 "components": [("pa.base", (Fr(3, 4), Fr(0), Fr(0), Fr(3, 4), Fr(10), Fr(0))), ("pa.ring", (Fr(3, 4), Fr(0), Fr(1, 4), Fr(3, 4), Fr(200), Fr(80)))]},
+                {"name": "pa.oring.own", "unicodes": [], "width": Fr(500), "contours": [], "anchors": [("center", Fr(1), Fr(2))],
+                 "components": [("pa.base", one + (Fr(0), Fr(0))), ("pa.ring", one + (Fr(250), Fr(100)))]}]
         names = [g["name"] for g in desc["glyphs"]]
         lib = rng.choice(["ufoLib2", "defcon"])
         which = ["decompose", "decompose_transformed", "flatten", "transform", "propagate"][i % 5]
@@ -348,6 +365,34 @@ def check_propagate(ctx, case, before, after, font, kw, lib, desc):
                         ok = True
             if not ok:
                 ctx.spec_failure(case, "anchor %r of %r at (%s,%s) is not the image of any component base's anchor" % (an, n, x, y))
+                continue
+            # ... and of the RIGHT component: a component whose glyph has an attaching anchor ("_x") is a mark component; an
+            # anchor comes from the base components, unless a mark component attaches by it ("_top" AND "top": then the
+            # composite's "top" is the mark's), in which case the last such mark decides
+            is_mark = lambda b: any(a[0].startswith("_") for a in b1[b]["anchors"])
+            comps = [(b, t) for b, t in g["components"] if b in b1]
+            bases = [(b, t) for b, t in comps if not is_mark(b)]
+            if not bases:
+                continue            # (a mark made of marks: one of them is promoted to base by position, not judged here)
+            first = lambda b, nm: next(((ax, ay) for (bn, ax, ay) in b1[b]["anchors"] if bn == nm), None)
+            attaching = [(b, t) for b, t in comps if is_mark(b) and first(b, an) is not None and first(b, "_" + an) is not None]
+            if attaching:
+                b, t = attaching[-1]
+                want = geom.apply_aff(t, first(b, an))
+                why = "the mark component %r attaches by it" % b
+            else:
+                have = [(b, t) for b, t in bases if first(b, an) is not None]
+                hs = [(b, t) for b, t in bases if first(b, stem) is not None]
+                if len(have) == 1:
+                    want, why = geom.apply_aff(have[0][1], first(have[0][0], an)), "base component %r carries it" % have[0][0]
+                elif stem != an and len(hs) > 1 and an.rsplit("_", 1)[1].isdigit() and 1 <= int(an.rsplit("_", 1)[1]) <= len(hs):
+                    b, t = hs[int(an.rsplit("_", 1)[1]) - 1]
+                    want, why = geom.apply_aff(t, first(b, stem)), "it is the numbered copy for base component %r" % b
+                else:
+                    continue        # (several base components with a literal numbered name: not judged)
+            if want != (x, y):
+                ctx.spec_failure(dict(case, glyph=n, anchor=an), "anchor %r of %r is at (%s,%s); %s, which puts it at (%s,%s)" % (
+                    an, n, x, y, why, want[0], want[1]))
     # idempotence: run again on a fresh glyph set built from the propagated result
     font2 = build_font(desc, lib)
     gset2 = _GlyphSet.from_layer(font2)
